@@ -328,6 +328,14 @@ def check_adjacent(ctx, fn):
     ctx.need(loop is not None and isinstance(loop.target, ast.Tuple), "make_units_adjacent has no loop over the other qubits")
     iv = loop.target.elts[0].id
     first = loop.body[0]
+    gate_ = mua.args.args[0].arg
+    NG = {gate_: "tk_gate", iv: "i", loop.target.elts[1].id: "tk_qubit"}
+    shape.match(ctx, "R13.10", TK + ".from_tk.make_units_adjacent:others", loop.iter, "enumerate(tk_gate.qubits[1:])", NG, mod=TK, node=loop, sig="adjacent-others", required="every qubit of the gate after the first, in order")
+    shape.match_stmts(ctx, "R13.10", TK + ".from_tk.make_units_adjacent:start", [s for s in mua.body if isinstance(s, ast.Assign)], ["offset = tk_gate.qubits[0].index[0]", "swaps = Id(qubit ** n_qubits @ bit ** n_bits)"], NG,
+                      mod=TK, node=mua, sig="adjacent-start", required="the first qubit stays where its register is; the swaps start as the identity on all wires")
+    shape.match(ctx, "R13.10", TK + ".from_tk.make_units_adjacent:source", shape.values_of(loop.body, ["source"]), "(tk_qubit.index[0],)", NG, mod=TK, node=first, sig="adjacent-source", required="the register of that qubit")
+    rr = [r_ for r_ in mua.body if isinstance(r_, ast.Return)]
+    shape.match(ctx, "R13.10", TK + ".from_tk.make_units_adjacent:returns", rr[-1].value if rr else None, "(offset, swaps)", {}, mod=TK, node=mua, sig="adjacent-returns")
     st_ = shape.values_of(loop.body, ["source", "target"])
     ctx.need(st_ is not None, "make_units_adjacent does not bind source, target first")
     ev0 = LinEv({iv: Lin.of(0)})
